@@ -1308,6 +1308,7 @@ func (t *State) processUnconfirmTxs(block *pb.InternalBlock, batch kvdb.Batch, n
 	blockTxByID := map[string]*pb.Transaction{}
 	UTXOKeysInBlock := map[string]bool{} // block里面所有的交易需要用掉的utxo
 	keysVersionInBlock := map[string]string{}
+	versionsSupersededInBlock := map[string]bool{} // key versions a block transaction read and overwrote
 	for _, tx := range block.Transactions {
 		txidsInBlock[string(tx.Txid)] = true
 		blockTxByID[string(tx.Txid)] = tx
@@ -1319,10 +1320,19 @@ func (t *State) processUnconfirmTxs(block *pb.InternalBlock, batch kvdb.Batch, n
 			}
 			UTXOKeysInBlock[utxoKey] = true
 		}
+		keysWrittenByTx := map[string]bool{}
 		for txOutOffset, txOut := range tx.TxOutputsExt {
 			valueVersion := xmodel.MakeVersion(tx.Txid, int32(txOutOffset))
 			bucketAndKey := xmodel.MakeRawKey(txOut.Bucket, txOut.Key)
 			keysVersionInBlock[string(bucketAndKey)] = valueVersion
+			keysWrittenByTx[string(bucketAndKey)] = true
+		}
+		for _, txInputExt := range tx.TxInputsExt {
+			bucketAndKey := xmodel.MakeRawKey(txInputExt.Bucket, txInputExt.Key)
+			if keysWrittenByTx[string(bucketAndKey)] {
+				readVersion := xmodel.MakeVersion(txInputExt.RefTxid, txInputExt.RefOffset)
+				versionsSupersededInBlock[string(bucketAndKey)+"\x00"+readVersion] = true
+			}
 		}
 	}
 
@@ -1367,6 +1377,13 @@ func (t *State) processUnconfirmTxs(block *pb.InternalBlock, batch kvdb.Batch, n
 			bucketAndKey := xmodel.MakeRawKey(txInputExt.Bucket, txInputExt.Key)
 			localVersion := xmodel.MakeVersion(txInputExt.RefTxid, txInputExt.RefOffset)
 			remoteVersion := keysVersionInBlock[string(bucketAndKey)]
+			if versionsSupersededInBlock[string(bucketAndKey)+"\x00"+localVersion] {
+				// the version this pending transaction read is overwritten by the block: it is stale whether or not
+				// the overwriting transaction was pending on this node too
+				t.log.Warn("inputs version superseded by block", "key", bucketAndKey, "localVersion", localVersion)
+				hasConflict = true
+				break
+			}
 			if localVersion != remoteVersion && remoteVersion != "" {
 				txidInVer := xmodel.GetTxidFromVersion(remoteVersion)
 				if _, known := unconfirmTxMap[string(txidInVer)]; known {
